@@ -80,6 +80,28 @@ def canon_leaves(v, lift=True):
     return out
 
 
+def expand_try(lv, none=None):
+    """`x?` in a function returning Option: when x is None the function returns None there and then; otherwise the value is x's content.
+    Leaves that use ('try', X) get the fact `X is Some` and read the content; one more leaf says that X being None gives None.  (Only for
+    tries every leaf depends on - a try after an earlier exit shows up as an ambiguous table entry and fails closed.)"""
+    none = none if none is not None else C("Option::None")
+    tries = []
+    for ts, val in lv:
+        for x in sym.subterms(("x", tuple(ts), val)):
+            if isinstance(x, tuple) and len(x) == 2 and x[0] == "try" and isinstance(x[1], tuple) and x[1][:1] == ("coll",) and x not in tries:
+                tries.append(x)
+    if not tries:
+        return lv
+    out = []
+    for ts, val in lv:
+        used = [x for x in tries if x in list(sym.subterms(("x", tuple(ts), val)))]
+        m = {x: ("proj", x[1], (("Option::Some", "0"),)) for x in used}
+        out.append((tuple(("is", x[1], "Option::Some") for x in used) + tuple(leaves.replace(t, m) for t in ts), leaves.replace(val, m)))
+    for x in tries:
+        out.append(((("not", (("is", x[1], "Option::Some"),)),), none))
+    return out
+
+
 def canon_test(t):
     if t[0] == "cond":
         return ("cond", comp.canon(t[1]), t[2])
@@ -201,7 +223,7 @@ def binary(c, lhs, rhs):
 
 def run_case(fx, fn, arg):
     b = fx.fn("completion::" + fn)
-    return canon_leaves(sym.Eval(fx, inline_depth=0).function(b, [arg]))
+    return expand_try(canon_leaves(sym.Eval(fx, inline_depth=0).function(b, [arg])))
 
 
 def rule_split(ctx):
